@@ -91,6 +91,7 @@ type cursor struct {
 	prevLine     lineBreakClass // the Line Break Class at index i-1 (see rules LB9 and LB10 for edge cases)
 	line         lineBreakClass // the Line Break Class at index i
 	nextLine     lineBreakClass // the Line Break Class at index i+1
+	prevLineRune rune           // the rune [prevLine] is the class of: not [prev] after combining marks (rule LB9)
 
 	// the last rune after spaces, used in rules LB14,LB15,LB16,LB17
 	// to match ... SP* ...
